@@ -19,6 +19,19 @@ CLAIMED = {
         "the emitted C, C++ and Rust stubs and skeletons compared with an independent evaluation of the marshalling rule. "
         "The four refutations are known findings re-confirmed on the real compiler on every run.",
    note=TB + " The envelope is observed in emitted text (argument-array initialisers, counts words); the dynamic envelope at the transport is covered by the bench-based checks."),
+ "C09": dict(engine="lean+facts+cli+lib", technique="Lean 4 proof (per-pass soundness lemmas composed along the driver, DFS invariant) + refutation witnesses by decide + differential correspondence on a malformed stream",
+   text="Lean 4: compile_sound proves, for both entry points, that an accepted compilation has distinct parameter names in main-file interfaces, "
+        "satisfies the no-padding alignment rule for every struct reachable from a main-file struct, and that every main-file interface flattened over its ancestor chain "
+        "has distinct const-or-error names, distinct method names and obeys all documented object-array/data-array rules; toposort success implies acyclicity for every hash iteration order. "
+        "The unrestricted statement is refuted (decide on the model's compile) for declarations in included files the passes never look at and for const/struct name clashes; these are known findings re-confirmed on the real compiler. "
+        "Tie: malformed stream (20 injectors: one violation of one rule at a random position of a valid generated file set) with the verdict of the real idlc process, of idlc::Language::generate and of the staged replay compared with the model. "
+        "Three genuine defects found this way were repaired in /repo (fix: commits, see known_findings.jsonl).",
+   note=TB + " Grammar-level violations are decided by pest (the model only knows that a file fails to parse); constant ranges by the Literal model."),
+ "C10": dict(engine="lean+facts+cli", technique="Lean 4 proof (converse lemmas for the local passes) + differential correspondence on a valid stream with permutation / redistribution",
+   text="Partial. Lean 4: the duplicate-parameter pass accepts whenever names are distinct; checkFunc_iff: the interface verifier's per-method decision is exactly the documented rule set (it refuses nothing the documentation allows); "
+        "the backend's fatal paths cannot fire when counts fit the counts word. Acceptance of whole file sets (graph passes on acyclic inputs, symbol lookup across the include closure) is tied, not proved: valid generated file sets over the full grammar "
+        "are run through the real binary for 5-6 backends under random flag sets, as generated, with declarations permuted, and with all declarations merged into the main file; every variant must exit 0 with output, and the model must agree.",
+   note=TB + " Completeness of the graph passes is sampled, not proved."),
  "C07": dict(engine="lean+tables+facts+cli", technique=T_IND,
    text="Lean 4 theorems (unbounded in hierarchy depth, members per level and interleaving) that the numbering walk hands out op-codes 0,1,2,... in ancestor-first declaration order, unique, <= 0x3FFF, and rejects chains with more than 0x4000 methods; tied to the code by kernel-checked regenerated tables (boundary 16383/16384/16385) and by sampled correspondence of the real pipeline's MIR facts with the model; the emitted numbers of C, C++, Rust and Java stubs/skeletons (incl. dispatch tables of derived interfaces) are extracted from the real compiler's output and compared with an oracle computed from the declarations; the 0x4000/0x4001 boundary is run through the real binary.",
    note=TB),
